@@ -159,6 +159,13 @@ def run_customize(scen, effect):
         ret = stackscope.customize(**kw)(outer)
         if ret is not outer:
             return ["@customize(...) did not return the decorated function unchanged"]
+    then = scen.get("then", "none")
+    if then == "reset_direct":
+        if stackscope.customize(outer) is not outer:
+            return ["customize(target) with no options did not return the target"]
+    elif then == "reset_decorator":
+        if stackscope.customize()(outer) is not outer:
+            return ["@customize() with no options did not return the decorated function"]
     g = outer()
     next(g)
     with warnings.catch_warnings(record=True):
@@ -178,8 +185,10 @@ def run_customize(scen, effect):
     want = {"kept": ["inner_%d" % n], "pruned": [], "replaced": ["repl_%d" % n]}[effect["rest"]]
     if names[1:] != want:
         bad.append("frames after the customized one: %s, expected %s (%s)" % (names[1:], want, effect["rest"]))
-    if scen["elab"] != "none" and not called:
+    if scen["elab"] != "none" and not called and then == "none":
         bad.append("elaborate callback was not called")
+    if then != "none" and called:
+        bad.append("the elaborate callback of a REPLACED registration was called")
     # other code is unaffected: the callee's own frame carries no flags
     for f in st.frames[1:]:
         if f.hide or f.hide_line:
